@@ -630,6 +630,159 @@ theorem run_pinv {cap bl : Nat} {s0 s : Sys} {evs : List Event} (h0 : Sys.init c
     ∃ stE stD, SysInv cap s stE stD ∧ PInv cap s stE stD :=
   run_pinv' (init_inv h0) (pinv_init h0) hp hr
 
+/-! ### totality in histories without capacity changes and cancellations -/
+
+/-- what one instruction other than a Stream Cancellation does to the ghost bookkeeping -/
+theorem popGhost_view (t : Table) (ss : List (Nat × StreamSt)) {i : DecInstr} (hno : ∀ sid, i ≠ .cancel sid)
+    (sid : Nat) :
+    ((aget (popGhost t ss i) sid).getD {}).done = ((aget ss sid).getD {}).done ∧
+    ((aget (popGhost t ss i) sid).getD {}).npop = ((aget ss sid).getD {}).npop + (if i = .ack sid then 1 else 0) := by
+  cases i with
+  | cancel x => exact absurd rfl (hno x)
+  | incr n => simp [popGhost]
+  | ack x =>
+    simp only [popGhost, stream_aset]
+    by_cases hx : x = sid
+    · subst hx; simp
+    · simp [hx]
+
+/-- the encoder accepts an Insert Count Increment, and a Section Acknowledgement for a stream that
+    has a decoded block it has not released yet -/
+theorem decoderInstr_ok {cap0 log stE t ss} (h : AckInv cap0 log stE t ss) {i : DecInstr}
+    (hno : ∀ sid, i ≠ .cancel sid)
+    (hack : ∀ sid, i = .ack sid → ((aget ss sid).getD {}).npop < ((aget ss sid).getD {}).done.length) :
+    ∃ t', decoderInstr t i = .ok t' := by
+  cases i with
+  | cancel x => exact absurd rfl (hno x)
+  | incr n =>
+    -- `blocked_count` is the sum over `blocked_streams`: the checked subtraction cannot fail
+    obtain ⟨t', hok, _⟩ := updateLargestReceived_spec h.tinv.blocked n
+    exact ⟨t', hok⟩
+  | ack sid =>
+    simp only [decoderInstr]
+    cases hu : t.untrackBlock sid with
+    | panic p => exact absurd hu (untrackBlock_no_panic h.tinv.track sid p)
+    | ok t' => exact ⟨t', rfl⟩
+    | err e =>
+      -- an error means `track_blocks` has no queue for the stream: every block on it is released
+      exfalso
+      have hn := untrackBlock_err_none h.tinv.track hu
+      have hq := h.queues sid
+      rw [hn] at hq
+      have hlt := hack sid rfl
+      unfold qOf at hq
+      split at hq
+      · rename_i hnil
+        have hlen := congrArg List.length hnil
+        simp only [List.length_map, List.length_drop, List.length_append, List.length_nil] at hlen
+        omega
+      · simp at hq
+
+/-- `Encoder::on_decoder_recv` accepts every batch of instructions in which each Section
+    Acknowledgement has its own decoded, unreleased block and no Stream Cancellation occurs -/
+theorem deliverAcks_ok {cap0 log stE t ss} (h : AckInv cap0 log stE t ss) {ins : List DecInstr} (rest : List DecInstr)
+    (hno : ∀ i ∈ ins, ∀ sid, i ≠ .cancel sid)
+    (hacks : ∀ sid, ((aget ss sid).getD {}).npop + (ins ++ rest).count (.ack sid) ≤ ((aget ss sid).getD {}).done.length) :
+    ∃ t' ss', deliverAcks t ss ins = .ok (t', ss') := by
+  induction ins generalizing t ss with
+  | nil => exact ⟨t, ss, rfl⟩
+  | cons i r ih =>
+    have hnoi : ∀ sid, i ≠ .cancel sid := hno i (by simp)
+    obtain ⟨t1, h1⟩ := decoderInstr_ok h hnoi (by
+      intro sid hi
+      have := hacks sid
+      subst hi
+      simp only [List.cons_append, List.count_cons_self] at this
+      omega)
+    simp only [deliverAcks, h1, Res.bind_ok]
+    rcases decoderInstr_inv h i with ⟨e, he⟩ | ⟨t1', h1', hi1, _⟩
+    · rw [h1] at he; simp at he
+    · rw [h1] at h1'; simp only [Res.ok.injEq] at h1'; subst h1'
+      apply ih hi1 (fun j hj => hno j (List.mem_cons_of_mem _ hj))
+      intro sid
+      obtain ⟨v1, v2⟩ := popGhost_view t ss hnoi sid
+      have := hacks sid
+      rw [v1, v2]
+      simp only [List.cons_append, List.count_cons] at this
+      by_cases hi : i = .ack sid
+      · simp [hi] at this ⊢; omega
+      · have hb : (i == DecInstr.ack sid) = false := by simp [hi]
+        rw [hb] at this
+        simp [hi] at this ⊢; omega
+
+/-- **`deliverAck` is total** in the states of plain histories: whatever the decoder has written is
+    accepted by the encoder -/
+theorem step_deliverAck_ok {cap0 : Nat} {s : Sys} {stE stD : STable} (h : SysInv cap0 s stE stD)
+    (p : PInv cap0 s stE stD) (k : Nat) :
+    ∃ s', step s (.deliverAck k) = .ok (s', .ackRecv (min k (s.decQ.length - s.decDel))) ∧
+      s'.decDel = s.decDel + min k (s.decQ.length - s.decDel) ∧ s'.decQ = s.decQ := by
+  have hsplit : (s.decQ.drop s.decDel).take k ++ s.decQ.drop (s.decDel + ((s.decQ.drop s.decDel).take k).length) =
+      s.decQ.drop s.decDel := by
+    rw [← List.drop_drop, drop_take_length, List.take_append_drop]
+  obtain ⟨t', ss', hok⟩ := deliverAcks_ok h.toAck (s.decQ.drop (s.decDel + ((s.decQ.drop s.decDel).take k).length))
+    (fun i hi' => p.noCancelInstr i (List.mem_of_mem_take hi')) (by
+      intro sid; rw [hsplit]; exact p.acks sid)
+  have hlen : ((s.decQ.drop s.decDel).take k).length = min k (s.decQ.length - s.decDel) := by
+    simp [List.length_take, List.length_drop]
+  simp only [step, hok, Res.bind_ok, hlen]
+  exact ⟨_, rfl, rfl, rfl⟩
+
+theorem step_plain_ok {cap0 : Nat} {s : Sys} {stE stD : STable} (h : SysInv cap0 s stE stD)
+    (p : PInv cap0 s stE stD) {ev : Event} (hp : ev.plain = true) : ∃ s' out, step s ev = .ok (s', out) := by
+  cases ev with
+  | encode sid fields =>
+    obtain ⟨enc, stE', he, _⟩ := encode_spec h.enc sid fields
+    simp only [step, he, Res.bind_ok]
+    exact ⟨_, _, rfl⟩
+  | deliverEnc k =>
+    obtain ⟨s', out, _, hs, _⟩ := step_deliverEnc_ok h k
+    exact ⟨s', out, hs⟩
+  | deliverBlock sid =>
+    have hnc := p.notCancelled sid
+    cases ht : (s.stream sid).todo with
+    | nil => exact ⟨s, .skip, by simp [step, hnc, ht]⟩
+    | cons b rest =>
+      obtain ⟨hd1, hd2⟩ := decode_head h p ht
+      rcases Nat.lt_or_ge stD.all.length b.required with hlt | hle
+      · exact ⟨s, .blocked b.required, by simp only [step, hnc, ht, hd2 hlt]⟩
+      · simp only [step, hnc, ht, hd1 hle]
+        exact ⟨_, _, rfl⟩
+  | deliverAck k =>
+    obtain ⟨s', hs, _⟩ := step_deliverAck_ok h p k
+    exact ⟨s', _, hs⟩
+  | setCapacity c => simp [Event.plain] at hp
+  | cancel sid => simp [Event.plain] at hp
+
+theorem run_plain_total' {cap0 : Nat} {s : Sys} {stE stD : STable} {evs : List Event}
+    (h : SysInv cap0 s stE stD) (p : PInv cap0 s stE stD) (hp : plainHistory evs = true) :
+    ∃ s', run s evs = some s' := by
+  induction evs generalizing s stE stD with
+  | nil => exact ⟨s, rfl⟩
+  | cons ev r ih =>
+    simp only [plainHistory, List.all_cons, Bool.and_eq_true] at hp
+    obtain ⟨hp1, hp2⟩ := hp
+    obtain ⟨s1, out, hs⟩ := step_plain_ok h p hp1
+    simp only [run, hs]
+    cases ev with
+    | encode sid fields =>
+      obtain ⟨stE1, h1, p1⟩ := pinv_encode h p hs
+      exact ih h1 p1 hp2
+    | deliverEnc k =>
+      obtain ⟨stD1, h1, p1⟩ := pinv_deliverEnc h p hs
+      exact ih h1 p1 hp2
+    | deliverBlock sid =>
+      obtain ⟨h1, p1⟩ := pinv_deliverBlock h p hs
+      exact ih h1 p1 hp2
+    | deliverAck k =>
+      obtain ⟨h1, p1⟩ := pinv_deliverAck h p hs
+      exact ih h1 p1 hp2
+    | setCapacity c => simp [Event.plain] at hp1
+    | cancel sid => simp [Event.plain] at hp1
+
+theorem run_plain_total {cap bl : Nat} {s0 : Sys} {evs : List Event} (h0 : Sys.init cap bl = .ok s0)
+    (hp : plainHistory evs = true) : ∃ s, run s0 evs = some s :=
+  run_plain_total' (init_inv h0) (pinv_init h0) hp
+
 /-! ### link to the oracle's notions -/
 
 theorem foldl_max_eq {L : List Nat} {init r : Nat} (hle : ∀ x ∈ L, x ≤ r) (hi : init ≤ r)
